@@ -325,7 +325,8 @@ class Interp:
             # yields (so nothing the body reads changes under it), and an exception the body raises at any point counts
             # as raised.  The values yielded so far are the ghost list `yielded_` (a local: loop invariants may speak
             # about it, loops that yield list it in `LoopSpec.modifies`); list values are yielded BY VALUE (their
-            # content at the moment of the yield).  The result is that list; `return` inside the body ends it.
+            # content at the moment of the yield; the list object stays readable and may be yielded again, an in-place
+            # change after the yield is Unsupported: seqs.YieldedRef).  The result is that list; `return` inside the body ends it.
             # Only statement-level `yield v` / `yield from iterable` are modelled (the value sent in is unused).
             # Cross-check against CPython: spec/xcheck_cases.py x_generator (through its list() wrapper).
             frame.locals["yielded_"] = LRef(())
@@ -393,7 +394,7 @@ class Interp:
         out = f.locals["yielded_"]
         if isinstance(e, ast.Yield):
             v = st.force(self.eval(st, e.value, fr)) if e.value is not None else None
-            out.seq = Q.seq_append(out.seq, Q.row_value(v) if isinstance(v, LRef) else v)
+            out.seq = Q.seq_append(out.seq, Q.yielded_value(v))
             return
         it = self.iter_view(st, st.force(self.eval(st, e.value, fr)))
         out.seq = Q.seq_concat(out.seq, it.seq if isinstance(it, LRef) else it)
@@ -417,13 +418,32 @@ class Interp:
         pass
 
     def s_Assign(self, st, s, fr):
-        v = self.eval(st, s.value, fr)
+        v = self._local_map(st, s.value, s.targets[0] if len(s.targets) == 1 else None, fr)
+        if v is None:
+            v = self.eval(st, s.value, fr)
         for t in s.targets:
             self.assign_target(st, t, v, fr)
 
     def s_AnnAssign(self, st, s, fr):
         if s.value is not None:
-            self.assign_target(st, s.target, self.eval(st, s.value, fr), fr)
+            v = self._local_map(st, s.value, s.target, fr)
+            self.assign_target(st, s.target, self.eval(st, s.value, fr) if v is None else v, fr)
+
+    def _local_map(self, st, value, target, fr):
+        """`name = {}` / `name: dict[..] = {}` in the function under contract, for a name the contract lists in
+        `local_maps = {name: MapOf(key shape, value shape)}`: the empty dict is modelled as a dict with SYMBOLIC keys
+        (pyvc.fmap.SFMap) of that shape instead of the constant-key DRef -- a choice of representation only: both are
+        models of the same empty dict, the SFMap one admits `d[i] = v` for a symbolic int `i` (keys / values that do
+        not fit the declared shapes are Unsupported there)."""
+        lm = getattr(getattr(self.task, "c", None), "local_maps", None)
+        if not lm or not (isinstance(value, ast.Dict) and not value.keys and isinstance(target, ast.Name) and target.id in lm):
+            return None
+        if fr.fn is None or fr.fn.ref.key != self.task.ref.key:
+            return None
+        from .fmap import SFMap, empty_map
+
+        shp = lm[target.id]
+        return SFMap(empty_map(st, target.id, shp.keys, shp.val))
 
     def s_AugAssign(self, st, s, fr):
         t = s.target
@@ -845,6 +865,12 @@ class Interp:
                 if hasattr(cur, "py_havoc"):
                     cur.py_havoc(st)
                 continue
+            if n in mutated and n not in names and isinstance(cur, V.SOpt) and isinstance(cur.val, ModelObj) and hasattr(cur.val, "py_havoc"):
+                # an Optional[dict] parameter whose dict the loop changes IN PLACE (`d[k] = v` under `if d`): the object
+                # stays the one the caller holds, its content becomes arbitrary (rebinding the local to a fresh object would
+                # hide the change from a "not modified" clause about the argument)
+                cur.val.py_havoc(st)
+                continue
             if n in mutated and n not in names and isinstance(cur, LRef):
                 shp = spec.shapes.get(n) or S.shape_of(cur)
                 cur.seq = shp.fresh_seq(st, n) if isinstance(shp, S.ListOf) else shp.fresh(st, n).seq
@@ -893,7 +919,30 @@ class Interp:
     def s_For(self, st, s, fr):
         it = self.eval(st, s.iter, fr)
         it = st.force(it)
+        if getattr(it, "is_iterator", False):
+            # `for x in <iterator object>` (builtins_model.ListIter): one `next()` per iteration, so that the iterator
+            # is left where a `break` stops and what follows (`lst.extend(it)`, another loop) sees only the rest;
+            # unrolled -- an invariant over an iterator object is not supported
+            spec = self.loop_spec(fr, s)
+            if spec is not None and spec.invariant is not None:
+                raise Unsupported("loop invariant on a for loop over an iterator object")
+            n = 0
+            while it.more(st):
+                n += 1
+                if n > self.max_unroll:
+                    raise Unsupported("for loop over an iterator unrolled beyond the limit")
+                self.assign_target(st, s.target, it.step(self, st), fr)
+                try:
+                    self.exec_block(st, s.body, fr)
+                except _Break:
+                    return
+                except _Continue:
+                    continue
+            self.exec_block(st, s.orelse, fr)
+            return
         seq = self.iter_view(st, it)
+        if isinstance(seq, Q.GuardedSeq):
+            raise Unsupported("for statement over a collection with symbolic membership (seqs.GuardedSeq: folds only)")
         spec = self.loop_spec(fr, s)
         n0 = Q.seq_len(seq)
         if spec is None or spec.invariant is None:
@@ -967,8 +1016,10 @@ class Interp:
         for f in reversed(chain):
             d.update(f.locals)
         for k, v in list(d.items()):
-            if isinstance(v, (SObj, LRef)):
-                d[k] = v.snapshot()  # lists too: the loop havoc replaces a mutated list's content in place
+            if isinstance(v, (SObj, LRef)) or (isinstance(v, ModelObj) and hasattr(v, "py_version")):
+                # lists too: the loop havoc replaces a mutated list's content in place; likewise a versioned model
+                # object (a dict with symbolic keys): `at_entry.<name>` is its value when the loop was reached
+                d[k] = v.snapshot()
         return View(d)
 
     def iter_view(self, st, it):
@@ -1034,6 +1085,14 @@ class Interp:
         if sym_parts is None:
             return tuple(out)
         sym_parts.append(tuple(out))
+        if any(Q.is_nested(p) for p in sym_parts):
+            # `[*rows[:y], new_row, *rows[y + 1:]]` -- a display that splices rows of a nested list (held BY VALUE, see
+            # seqs.fresh_seq) with list objects given explicitly: those become rows of the new list by value too
+            # (seqs.row_value: the old reference is marked as moved, any later use of it is Unsupported -- row aliasing
+            # is not modelled), so that every element of the result is an immutable sequence value and reading an
+            # element at a symbolic index is a conditional term instead of a path fork.
+            # Cross-check against CPython: spec/xcheck_cases.py x_splice_rows.
+            sym_parts = [tuple(Q.row_value(x) if type(x) is LRef else x for x in p) if isinstance(p, tuple) else p for p in sym_parts]
         parts = [p for p in sym_parts if not (isinstance(p, tuple) and not p)]
         r = parts[0]
         for p in parts[1:]:
@@ -1837,16 +1896,52 @@ class Interp:
 
     # ---- comprehensions (over sequences of concrete length)
     def _comp(self, st, e, fr, elt_fn):
-        out = []
+        class _Out(list):
+            guarded = False
+
+        out = _Out()
         cfr = Frame(fr.fn, fr.mod, parent=fr)
         cfr.self_obj = fr.self_obj
 
+        guards = []  # (seqs.GuardedSeq) the membership guards of the candidates being visited
+
         def rec(gi):
             if gi == len(e.generators):
-                out.append(elt_fn(cfr))
+                if guards:
+                    try:
+                        v = elt_fn(cfr)
+                    except PyRaise as pr:
+                        raise Unsupported(f"element expression of a comprehension over a collection with symbolic membership raises {pr.exc.cls.__name__}") from None
+                    out.append((both(*guards), v))
+                else:
+                    out.append(elt_fn(cfr))
                 return
             g = e.generators[gi]
             seq = self.iter_view(st, st.force(self.eval(st, g.iter, cfr)))
+            if isinstance(seq, Q.GuardedSeq):
+                # a collection with symbolic membership over a concrete universe: every candidate is visited, the
+                # results carry the guard "is a member (and passes the `if` clauses)" -- see seqs.GuardedSeq
+                if gi != 0 or len(e.generators) != 1:
+                    raise Unsupported("nested comprehension over a collection with symbolic membership")
+                for gd, v in seq.items:
+                    self.assign_target(st, g.target, v, cfr)
+                    conds = [gd]
+                    for c in g.ifs:
+                        cv = self.eval(st, c, cfr)
+                        conds.append(Q.GuardedSeq.truth_formula(cv))
+                    guards.append(both(*conds))
+                    try:
+                        rec(gi + 1)
+                    except Unsupported:
+                        # the element expression raises for this candidate: harmless when the candidate cannot be a
+                        # member on this path (e.g. a candidate of another type than the members); otherwise whether
+                        # CPython reaches it depends on the iteration order and on short-circuiting: not modelled
+                        if st.branch(guards[-1]):
+                            raise
+                    finally:
+                        guards.pop()
+                out.guarded = True
+                return
             n = Q.seq_len(seq)
             if not isinstance(n, int):
                 raise _SymComp(seq)
@@ -2025,7 +2120,10 @@ class Interp:
         if r is not NotImplemented:
             return r
         try:
-            return LRef(tuple(self._comp(st, e, fr, lambda c: self.eval(st, e.elt, c))))
+            out = self._comp(st, e, fr, lambda c: self.eval(st, e.elt, c))
+            if out.guarded:
+                raise Unsupported("list comprehension over a collection with symbolic membership")
+            return LRef(tuple(out))
         except _SymComp as sc:
             return LRef(self._sym_comp(st, e, fr, sc.seq))
 
@@ -2034,15 +2132,24 @@ class Interp:
         if r is not NotImplemented:
             return r
         try:
-            return tuple(self._comp(st, e, fr, lambda c: self.eval(st, e.elt, c)))
+            out = self._comp(st, e, fr, lambda c: self.eval(st, e.elt, c))
+            if out.guarded:
+                return Q.GuardedSeq(out)  # generator over a collection with symbolic membership: folds only (all / any)
+            return tuple(out)
         except _SymComp as sc:
             return self._sym_comp(st, e, fr, sc.seq)
 
     def e_SetComp(self, st, e, fr):
-        return frozenset(self._comp(st, e, fr, lambda c: self.eval(st, e.elt, c)))
+        out = self._comp(st, e, fr, lambda c: self.eval(st, e.elt, c))
+        if out.guarded:
+            raise Unsupported("set comprehension over a collection with symbolic membership")
+        return frozenset(out)
 
     def e_DictComp(self, st, e, fr):
-        return DRef(dict(self._comp(st, e, fr, lambda c: (self.eval(st, e.key, c), self.eval(st, e.value, c)))))
+        out = self._comp(st, e, fr, lambda c: (self.eval(st, e.key, c), self.eval(st, e.value, c)))
+        if out.guarded:
+            raise Unsupported("dict comprehension over a collection with symbolic membership")
+        return DRef(dict(out))
 
     # ---- calls
     def e_Call(self, st, e, fr):
